@@ -95,7 +95,7 @@ SEQ = {
     "C05": dict(oracle="C05", proj=("ev", "S"), reference=True),
     "C06": dict(oracle="C06", proj=("ev", "probe", "L", "O"), reference=False),
     "C07": dict(oracle="C07", proj=(), reference=False),
-    "C10": dict(oracle=None, proj=("ev", "O"), reference=True),
+    "C10": dict(oracle="C10", proj=("ev", "O"), reference=True),
     "C13": dict(oracle=None, proj=("ev", "probe", "O"), reference=True),
     "C14": dict(oracle="C14", proj=("ev", "tap"), reference=True),
     "C17": dict(oracle="C17", proj=EV, reference=False),
@@ -110,6 +110,8 @@ def oracle_applies(prop, case_text):
         return "-hot-" not in case_text.split()[1] and "(subject" not in case_text and "flaky" not in case_text
     if prop == "C17":
         return "(drop)" in case_text
+    if prop == "C10":
+        return case_text.count("(subject ") == 1 and "(conn " not in case_text
     return True
 
 def nontrivial(prop, case_text, impl_line):
